@@ -638,6 +638,7 @@ func init() {
 		if msg := c18Misc(); msg != "" {
 			viol("misc", msg, []string{msg})
 		}
+		rp.Extra["exchange_matrix_cases"] = c18ExchangeCases
 		// (c): filter builder call sequences
 		maxLen := 5
 		arities := []int{0, 1, 2, 3, 4, 5, 6, 7, 8, 9, 10, 11, 12}
